@@ -34,6 +34,44 @@ def classify (E : Env) (ct : Str) : Option (Str × Bool) :=
   else if ct = textPlain then some (w "Text", false)
   else none
 
+/-! ### the switch as the translator writes it (Gen/MediaSwitch.lean is regenerated from operations.go on every run) -/
+
+inductive Cond where
+  | eq (s : Str)      -- contentType == "…"
+  | isJson            -- util.IsMediaTypeJson(contentType)
+  | pfx (s : Str)     -- strings.HasPrefix(contentType, "…")
+  | dflt              -- default:
+deriving DecidableEq, Repr
+
+inductive TagE where
+  | lit (s : Str)     -- tag = "…"
+  | camel             -- tag = mediaTypeToCamelCase(contentType)
+  | unsupported       -- the clause that leaves the tag empty
+deriving DecidableEq, Repr
+
+structure Arm where
+  cond : Cond
+  tag : TagE
+  isDefault : Bool    -- defaultBody = true
+deriving DecidableEq, Repr
+
+def Cond.holds (E : Env) (ct : Str) : Cond → Bool
+  | .eq s => ct = s
+  | .isJson => E.isJson ct
+  | .pfx s => s.isPrefixOf ct
+  | .dflt => true
+
+/-- Go's tag-less `switch`: the first clause whose condition holds -/
+def evalSwitch (E : Env) : List Arm → Str → Option (Str × Bool)
+  | [], _ => none
+  | a :: rest, ct =>
+    if a.cond.holds E ct then
+      match a.tag with
+      | .lit s => some (s, a.isDefault)
+      | .camel => some (E.camel ct, a.isDefault)
+      | .unsupported => none
+    else evalSwitch E rest ct
+
 structure Body where
   contentType : Str
   tag : Str          -- NameTag, empty for the generic body
